@@ -20,6 +20,8 @@ def declare(spec):
                       ensures=['a <= result and result <= b'], note='T-STDLIB random.randint'))
     spec.ghost('mp_pops', INT)     # C01: number of workers manage_processes unlisted (ghost counter at every pop)
     spec.local_ghosts.add('mp_pops')
+    spec.ghost('mp_deadseen', INT)   # C01: number of status reads by manage_processes that said DEAD_OR_ZOMBIE / UNEXISTING
+    spec.local_ghosts.add('mp_deadseen')
     LIFE = ['excl', 'wf_w(self)', 'not self.on_demand', 'not isnull(self.arbiter)',
             'found_empty(self)', 'is_str(self.cmd)',
             'self.warmup_delay >= 0', 'self.graceful_timeout >= 0', 'self.numprocesses >= 0', 'self.max_age >= 0', 'self.max_age_variance >= 0']
@@ -54,9 +56,12 @@ def declare(spec):
             ('fixpoint',
              "implies(old(self._status) != 'stopped' and mp_pops == old(mp_pops) and "
              "len(old(self.processes)) == old(self.numprocesses) "
-             "and old(self.max_age) == 0, same_heap(except_=['K_alive', 'mp_pops']))"),
+             "and old(self.max_age) == 0, same_heap(except_=['K_alive', 'mp_pops', 'mp_deadseen']))"),
             # convergence step: with respawn on and no stop in progress the count is at least the target afterwards
             # (exactly the target when something was spawned), unless a spawn failed and the watcher was stopped
+            # a listed worker whose status read says dead / gone is unlisted (so the count below is a count of workers
+            # not known to be dead): as many removals as such reads, at least
+            ('found-dead-are-unlisted', 'mp_pops - old(mp_pops) >= mp_deadseen - old(mp_deadseen)'),
             ('deficit-filled',
              "implies(old(self._status) == 'active' and old(self.respawn) and old(self.max_age) == 0 and "
              "self._status != 'stopped', len(self.processes) >= self.numprocesses)"),
@@ -80,7 +85,8 @@ def declare(spec):
         ],
         raises={'RuntimeError': ["old(self._status) != 'stopped'"]},   # a stopped watcher returns at once
         modifies=['*'], local_types={'processes_to_kill': List(Ref('Process'))},
-        ghost_at={'pop': ['mp_pops = mp_pops + 1']},
+        ghost_at={'pop': ['mp_pops = mp_pops + 1'],
+                  'status': ['mp_deadseen = mp_deadseen + ite(call_result == 1 or call_result == 2, 1, 0)']},
         loops={
             0: Loop(invariant=[
                 SUB, DROPDEAD, 'wf_w(self)', 'excl',
@@ -91,10 +97,12 @@ def declare(spec):
                 "forall(INT, INT, lambda a, b: implies(0 <= a and a < b and b < loop_n, loop_seq[a] != loop_seq[b]))",
                 "len(self.processes) <= len(old(self.processes)) and len(self.processes) >= len(old(self.processes)) - loop_i",
                 "implies(mp_pops == old(mp_pops), same_field('Watcher.processes'))", 'mp_pops >= old(mp_pops)',
-                "same_heap(except_=['Watcher.processes', 'K_alive', 'mp_pops'])",
+                "same_heap(except_=['Watcher.processes', 'K_alive', 'mp_pops', 'mp_deadseen'])",
                 "forall(Ref('Watcher'), lambda w: implies(w != self, w.processes == old(w.processes) and len(w.processes) == len(old(w.processes))))",
                 'kstep()',
-            ], fingerprint='for:list(self.processes.values())', modifies=['self.processes', 'K_alive', 'mp_pops']),
+                # every worker whose status read said dead / gone was unlisted (and only those: DROPDEAD)
+                'mp_pops - old(mp_pops) == mp_deadseen - old(mp_deadseen)',
+            ], fingerprint='for:list(self.processes.values())', modifies=['self.processes', 'K_alive', 'mp_pops', 'mp_deadseen']),
             1: Loop(invariant=[
                 'wf_w(self)', 'excl',
                 "forall(INT, lambda k: implies(k in self.processes, (k in at('loop1_pre', self.processes)) and "
@@ -113,8 +121,9 @@ def declare(spec):
                 "loop_n == at('loop1_pre', len(self.processes)) - self.numprocesses",
                 "len(self.processes) - length(processes_to_kill) == at('loop1_pre', len(self.processes)) - loop_i",
                 "forall(Ref('Watcher'), lambda w: implies(w != self, w.processes == at('loop1_pre', w.processes)))",
+                "mp_pops - at('loop1_pre', mp_pops) == mp_deadseen - at('loop1_pre', mp_deadseen)",
             ], fingerprint='for:sorted(self.processes.values(), key=lambda process: process.started, reverse=True)[self.numprocesses:]',
-                modifies=['self.processes', 'K_alive', 'mp_pops']),
+                modifies=['self.processes', 'K_alive', 'mp_pops', 'mp_deadseen']),
             2: Loop(invariant=[
                 'wf_w(self)', 'excl', 'loop_n == length(processes_to_kill)',
                 "forall(INT, lambda j: implies(loop_i <= j and j < length(processes_to_kill), "
